@@ -120,7 +120,7 @@ func (cmd *RequestCommand) SuccessResponse() *ResponseCommand {
 // SuccessResponseWithResource creates a success response Command for the current request.
 func (cmd *RequestCommand) SuccessResponseWithResource(resource Document) *ResponseCommand {
 	respCmd := cmd.SuccessResponse()
-	respCmd.Resource = resource
+	respCmd.SetResource(resource)
 	return respCmd
 }
 
